@@ -18,6 +18,7 @@ pub struct Ctx {
     pub stats: BTreeMap<String, u64>,
     pub samples: Vec<String>,
     nontrivial: HashSet<u64>,
+    oracle: File,
 }
 
 fn hash(sx: &str) -> u64 {
@@ -44,6 +45,7 @@ impl Ctx {
             stats: BTreeMap::new(),
             samples: Vec::new(),
             nontrivial: HashSet::new(),
+            oracle: File::create(format!("{}/oracle.txt", dir)).unwrap(),
         }
     }
 
@@ -82,22 +84,21 @@ impl Ctx {
         *self.stats.entry(key.to_string()).or_insert(0) += n;
     }
 
+    /// record an oracle failure; written to disk at once so that it survives a later hang or crash
     pub fn fail(&mut self, what: &str, replay: &[String]) {
         if self.failures.len() < 50 {
             self.failures.push((what.to_string(), replay.to_vec()));
+            let mut txt = format!("FAIL {}\n", what);
+            for o in replay {
+                txt.push_str(&format!("  OP {}\n", o));
+            }
+            let _ = self.oracle.write_all(txt.as_bytes());
         }
         self.count("oracle_failures");
     }
 
     pub fn finish(&mut self, dir: &str) {
         self.out.flush().unwrap();
-        let mut f = File::create(format!("{}/oracle.txt", dir)).unwrap();
-        for (w, ops) in &self.failures {
-            writeln!(f, "FAIL {}", w).unwrap();
-            for o in ops {
-                writeln!(f, "  OP {}", o).unwrap();
-            }
-        }
         let mut st = File::create(format!("{}/stats.txt", dir)).unwrap();
         writeln!(st, "ops {}", self.n_ops).unwrap();
         writeln!(st, "distinct_nontrivial {}", self.nontrivial.len()).unwrap();
